@@ -19,8 +19,19 @@ def fmt_dt(t):
 
 def gen_task(rng, uid, now, span):
     """(ical text, limit) for one task whose occurrences lie around [now, now+span]"""
-    kind = rng.choice(["secondly", "minutely", "minutely", "hourly", "daily", "rdate", "past", "old", "single"])
+    kind = rng.choice(["secondly", "minutely", "minutely", "hourly", "daily", "rdate", "past", "old", "single", "longcount"])
     start = now + rng.choice([-3 * span, -span, -60, -1, 0, 1, 17, span / 3, span / 2])
+    if kind == "longcount":
+        # a finite task that is armed a few hundred times before its last occurrence: counts on and around multiples of 256
+        fits = [(p, c) for p in (1, 2, 7, 60, 3600) for c in (255, 256, 257, 511, 512, 513, 768, 1024) if 20 + p * c < span]
+        if not fits:
+            kind = "minutely"
+        else:
+            per, cnt = rng.choice(fits)
+            start = int(now + rng.choice([1, 5, 17]))
+            unit, iv = ("SECONDLY", per) if per < 60 else (("MINUTELY", 1) if per == 60 else ("HOURLY", 1))
+            return "\n".join(["BEGIN:VEVENT", "UID:" + uid, "SUMMARY:job " + uid, "DTSTART:" + fmt_dt(start),
+                              "RRULE:FREQ=%s;INTERVAL=%d;COUNT=%d" % (unit, iv, cnt), "END:VEVENT"]), per
     if kind == "old":
         # before 2001 (the daemon's own epoch), but close enough for the unroll to get past it
         start = rng.choice([978307200 - 1, 978307200 - 3600, 946684800 - 86400 * 400, 915148800])
